@@ -1,3 +1,43 @@
-From Coq Require Import List NArith String.
+(* Lock-order facts re-extracted from the concurrency files on every run (Gen/Locks.v):
+   every nesting edge goes up a fixed ranking, hence the lock-order graph has no cycle;
+   the connectedness manager and the lifecycle manager hand their own state mutex to
+   notify.New (the waiter compares the state and waits under the lock the updaters hold). *)
+From Coq Require Import List NArith Arith String Bool Lia.
+From Wesh Require Import Gen.Locks.
 Import ListNotations.
-Lemma placeholder_notify_facts : True. Proof. exact I. Qed.
+Open Scope string_scope.
+
+Definition rank (l : string) : nat :=
+  if String.eqb l "muPeers" then 0
+  else if String.eqb l "muCache" then 1
+  else if String.eqb l "muState" then 1
+  else if String.eqb l "locker" then 1
+  else if String.eqb l "notify.L" then 2
+  else if String.eqb l "notify.mu" then 3
+  else 100.   (* an unknown lock name fails the check below unless it only has incoming edges *)
+
+Definition edge_ok (e : string * string * string) : bool :=
+  let '(_, a, b) := e in Nat.ltb (rank a) (rank b) && Nat.ltb (rank b) 100.
+
+Lemma lock_edges_ranked : forallb edge_ok lock_edges = true.
+Proof. vm_compute. reflexivity. Qed.
+
+(* soundness of the ranking argument: no lock is reachable from itself *)
+Inductive path (es : list (string * string * string)) : string -> string -> Prop :=
+| path_one f a b : In (f, a, b) es -> path es a b
+| path_step f a b c : In (f, a, b) es -> path es b c -> path es a c.
+
+Lemma ranked_path_increases es :
+  forallb edge_ok es = true -> forall a b, path es a b -> (rank a < rank b)%nat.
+Proof.
+  intros H a b P. rewrite forallb_forall in H. induction P as [f a b Hin|f a b c Hin _ IH].
+  - specialize (H _ Hin). cbn in H. apply andb_true_iff in H. destruct H as [H _]. apply Nat.ltb_lt in H. exact H.
+  - specialize (H _ Hin). cbn in H. apply andb_true_iff in H. destruct H as [H _]. apply Nat.ltb_lt in H. lia.
+Qed.
+
+Theorem lock_order_acyclic : forall a, ~ path lock_edges a a.
+Proof. intros a P. pose proof (ranked_path_increases _ lock_edges_ranked _ _ P). lia. Qed.
+
+Lemma notify_locker_is_state_mutex :
+  notify_locker = [("connectedness_manager.go", "muState"); ("pkg/lifecycle/manager.go", "locker")].
+Proof. reflexivity. Qed.
